@@ -1,8 +1,371 @@
+//! sim-native: the native simulation engine (driver, workers, replay).
+//!
+//! exit codes: 0 = property held on everything explored, 1 = violation (with a
+//! `VIOLATION property=<id> replay=<path>` line), 2 = harness error.
+
+use serde_json::{Value, json};
+use sim::engine::{Known, execute, load_replay, run_batch};
+use sim::workload::Prop;
+use sim::world::{Anchors, Stats, install_quiet_panic_hook};
+use std::collections::HashMap;
+use std::io::Write;
+use std::process::{Command, Stdio};
+use std::time::{Duration, Instant};
+
+fn arg<'a>(args: &'a [String], name: &str) -> Option<&'a str> {
+    args.iter().position(|a| a == name).and_then(|i| args.get(i + 1)).map(|s| s.as_str())
+}
+
+fn die(msg: &str) -> ! {
+    eprintln!("HARNESS-ERROR: {}", msg);
+    std::process::exit(2)
+}
+
 fn main() {
-    let reg = sim::registry::build();
-    for t in &reg.types {
-        println!("{:40} fam={:14} role={:4} block={:3} key={:3} size={:5} align={:2} z={} det={} send={} sync={}",
-            t.name, t.family, t.role.name(), t.block, t.key_size, t.size, t.align, t.zeroize, t.detect, t.send, t.sync);
+    let args: Vec<String> = std::env::args().collect();
+    if args.len() < 2 {
+        die("usage: sim-native <check|worker|replay|registry|digest|c14|c16> ...");
     }
-    println!("{} types, {} families, {} convs", reg.types.len(), reg.families.len(), reg.convs.len());
+    match args[1].as_str() {
+        "registry" => {
+            let reg = sim::registry::build();
+            for t in &reg.types {
+                println!(
+                    "{:40} fam={:14} role={:4} block={:3} key={:3} size={:5} align={:2} z={} det={} send={} sync={}",
+                    t.name, t.family, t.role.name(), t.block, t.key_size, t.size, t.align, t.zeroize, t.detect, t.send, t.sync
+                );
+            }
+            println!("{} types, {} families, {} convs", reg.types.len(), reg.families.len(), reg.convs.len());
+        }
+        "worker" => worker(&args),
+        "check" => check(&args),
+        "replay" => replay(&args),
+        "digest" => digest(&args),
+        "c14" => sim::bcrypt::main(&args),
+        "c16" => sim::residue::main(&args),
+        _ => die("unknown subcommand"),
+    }
+}
+
+fn common(args: &[String]) -> (Prop, u64) {
+    let prop = Prop::parse(arg(args, "--prop").unwrap_or("")).unwrap_or_else(|| die("--prop C03|C04|C12|C15"));
+    let seed: u64 = arg(args, "--seed").and_then(|s| s.parse().ok()).unwrap_or(20261003);
+    (prop, seed)
+}
+
+fn worker(args: &[String]) {
+    // anchors first: nothing else has run in this process yet
+    let reg = sim::registry::build();
+    let anchors = Anchors::compute(&reg);
+    install_quiet_panic_hook();
+    let (prop, seed) = common(args);
+    let total: u64 = arg(args, "--total").and_then(|s| s.parse().ok()).unwrap_or(1000);
+    let stride: u64 = arg(args, "--stride").and_then(|s| s.parse().ok()).unwrap_or(1);
+    let offset: u64 = arg(args, "--offset").and_then(|s| s.parse().ok()).unwrap_or(0);
+    let budget: Option<u64> = arg(args, "--budget-s").and_then(|s| s.parse().ok());
+    let replay_dir = arg(args, "--replay-dir").unwrap_or("/verif/replays");
+    let known = Known::load(arg(args, "--known").unwrap_or("/verif/known_findings.json"));
+    let digest_file = arg(args, "--digest-file");
+    let deadline = budget.map(|s| Instant::now() + Duration::from_secs(s));
+    let b = run_batch(&reg, &anchors, prop, seed, total, stride, offset, &known, replay_dir, deadline, 3);
+    let mut j = b.to_json();
+    if let Some(p) = digest_file {
+        let mut f = std::fs::File::create(p).unwrap_or_else(|_| die("cannot write digest file"));
+        for d in &b.digests {
+            f.write_all(&d.to_le_bytes()).unwrap();
+        }
+        let mut f = std::fs::File::create(format!("{}.il", p)).unwrap();
+        for d in &b.interleavings {
+            f.write_all(&d.to_le_bytes()).unwrap();
+        }
+        j["digests"] = json!([]);
+        j["interleavings"] = json!([]);
+    }
+    j["anchor_digest"] = json!(format!("{:016x}", anchors.digest));
+    j["anchors"] = json!(anchors.entries.len());
+    let s = cpufeatures::sim::stats();
+    j["seam"] = json!({"detect_calls": s.detect_calls, "masked_decisions": s.masked_decisions, "cache_hits": s.cache_hits,
+        "cache_misses": s.cache_misses, "token_reads": s.token_reads, "stale_token_reads": s.stale_token_reads});
+    println!("{}", serde_json::to_string(&j).unwrap());
+}
+
+fn read_u64s(path: &str) -> Vec<u64> {
+    let b = std::fs::read(path).unwrap_or_default();
+    b.chunks_exact(8).map(|c| u64::from_le_bytes(c.try_into().unwrap())).collect()
+}
+
+fn check(args: &[String]) {
+    let t0 = Instant::now();
+    let (prop, seed) = common(args);
+    let tier = arg(args, "--tier").unwrap_or("quick").to_string();
+    let workers: u64 = arg(args, "--workers").and_then(|s| s.parse().ok()).unwrap_or(16);
+    let total: u64 = arg(args, "--total").and_then(|s| s.parse().ok()).unwrap_or(if tier == "quick" { 40_000 } else { 4_000_000 });
+    let budget: u64 = arg(args, "--budget-s").and_then(|s| s.parse().ok()).unwrap_or(if tier == "quick" { 120 } else { 1500 });
+    let evidence = arg(args, "--evidence").map(|s| s.to_string()).unwrap_or(format!("/verif/evidence/{}.json", prop.name()));
+    let replay_dir = arg(args, "--replay-dir").unwrap_or("/verif/replays").to_string();
+    let known_path = arg(args, "--known").unwrap_or("/verif/known_findings.json").to_string();
+    let tmp = arg(args, "--tmp").map(|s| s.to_string()).unwrap_or_else(|| "/verif/.build/tmp".to_string());
+    let _ = std::fs::create_dir_all(&tmp);
+    let exe = std::env::current_exe().unwrap();
+    println!("sim-native check property={} tier={} VERIF_SEED={} runs={} workers={}", prop.name(), tier, seed, total, workers);
+    let mut kids = Vec::new();
+    for w in 0..workers {
+        let df = format!("{}/{}-digests-{}.bin", tmp, prop.name(), w);
+        let c = Command::new(&exe)
+            .args(["worker", "--prop", prop.name(), "--seed", &seed.to_string(), "--total", &total.to_string()])
+            .args(["--stride", &workers.to_string(), "--offset", &w.to_string(), "--budget-s", &budget.to_string()])
+            .args(["--replay-dir", &replay_dir, "--known", &known_path, "--digest-file", &df])
+            .stdout(Stdio::piped())
+            .stderr(Stdio::piped())
+            .spawn()
+            .unwrap_or_else(|e| die(&format!("spawn worker: {}", e)));
+        kids.push((w, df, c));
+    }
+    let mut stats = Stats::default();
+    let mut runs = 0u64;
+    let mut nontrivial = 0u64;
+    let mut violations: Vec<Value> = Vec::new();
+    let mut known_hits: HashMap<String, String> = HashMap::new();
+    let mut notes: Vec<String> = Vec::new();
+    let mut samples: Vec<Value> = Vec::new();
+    let mut herr: Vec<String> = Vec::new();
+    let mut anchor_digests: Vec<String> = Vec::new();
+    let mut digests: Vec<u64> = Vec::new();
+    let mut inter: Vec<u64> = Vec::new();
+    let mut seam = json!({});
+    let mut seam_tot: HashMap<String, u64> = HashMap::new();
+    let mut portable_xor = 0u64;
+    for (w, df, c) in kids {
+        let out = c.wait_with_output().unwrap_or_else(|e| die(&format!("wait worker: {}", e)));
+        let so = String::from_utf8_lossy(&out.stdout).to_string();
+        let line = so.lines().last().unwrap_or("");
+        let j: Value = match serde_json::from_str(line) {
+            Ok(j) if out.status.success() => j,
+            _ => {
+                // the worker died (signal / abort inside cipher code): that is an outcome, reported with what we know
+                herr.push(format!(
+                    "worker {} ended abnormally: status {:?}; stderr tail: {}",
+                    w,
+                    out.status,
+                    String::from_utf8_lossy(&out.stderr).lines().rev().take(5).collect::<Vec<_>>().join(" | ")
+                ));
+                continue;
+            }
+        };
+        runs += j["runs"].as_u64().unwrap_or(0);
+        nontrivial += j["nontrivial"].as_u64().unwrap_or(0);
+        stats.add(&Stats::from_json(&j["stats"]));
+        for v in j["violations"].as_array().cloned().unwrap_or_default() {
+            violations.push(v);
+        }
+        for k in j["known_hits"].as_array().cloned().unwrap_or_default() {
+            known_hits.insert(k[0].as_str().unwrap_or("").to_string(), k[1].as_str().unwrap_or("").to_string());
+        }
+        for n in j["notes"].as_array().cloned().unwrap_or_default() {
+            if notes.len() < 12 {
+                notes.push(n.as_str().unwrap_or("").to_string());
+            }
+        }
+        for s in j["samples"].as_array().cloned().unwrap_or_default() {
+            if samples.len() < 3 {
+                samples.push(s);
+            }
+        }
+        for e in j["harness_errors"].as_array().cloned().unwrap_or_default() {
+            herr.push(e.as_str().unwrap_or("").to_string());
+        }
+        anchor_digests.push(j["anchor_digest"].as_str().unwrap_or("").to_string());
+        portable_xor ^= u64::from_str_radix(j["portable_xor"].as_str().unwrap_or("0"), 16).unwrap_or(0);
+        if let Some(o) = j["seam"].as_object() {
+            for (k, v) in o {
+                *seam_tot.entry(k.clone()).or_insert(0) += v.as_u64().unwrap_or(0);
+            }
+        }
+        digests.extend(read_u64s(&df));
+        inter.extend(read_u64s(&format!("{}.il", df)));
+        let _ = std::fs::remove_file(&df);
+        let _ = std::fs::remove_file(format!("{}.il", df));
+        seam = json!(seam_tot);
+    }
+    digests.sort_unstable();
+    digests.dedup();
+    inter.sort_unstable();
+    inter.dedup();
+    anchor_digests.sort();
+    anchor_digests.dedup();
+    if anchor_digests.len() > 1 {
+        // pristine tables differ between identically started processes: results depend on something
+        // other than key and input
+        herr.push(format!("anchor tables differ between worker processes: {:?}", anchor_digests));
+    }
+    let wall = t0.elapsed().as_secs_f64();
+    let reg = sim::registry::build();
+    let variants: Vec<String> = {
+        let mut v: Vec<String> = reg.types.iter().map(|t| t.variant.to_string()).collect();
+        v.sort();
+        v.dedup();
+        v
+    };
+    let sj = stats.to_json();
+    let mut faults = serde_json::Map::new();
+    let mut probes = serde_json::Map::new();
+    let mut opsj = serde_json::Map::new();
+    for (k, v) in sj.as_object().unwrap() {
+        if let Some(n) = k.strip_prefix("f_") {
+            faults.insert(n.to_string(), v.clone());
+        } else if let Some(n) = k.strip_prefix("r_") {
+            probes.insert(n.to_string(), v.clone());
+        } else {
+            opsj.insert(k.clone(), v.clone());
+        }
+    }
+    let ev = json!({
+        "property_id": prop.name(),
+        "tier": tier,
+        "seed": seed,
+        "level": "exploration",
+        "coverage": {
+            "evaluations": runs,
+            "distinct_nontrivial": digests.len(),
+            "rule": "one evaluation = one simulated run: a seeded swarm configuration (families, enabled build variants, mask_aes, tasks, op mix) and a seeded history of 8..96 operations applied to every enabled realisation with all oracles evaluated after each step. A run is non-trivial if at least one fault took effect (mask_aes with a detection-routed instance, relocate/drop/drop-source followed by use, epoch flip with live instances, a non-default buffer placement) and it created at least two instances; distinct = distinct full-history digests (H_all) among those, counted with a set",
+            "samples": samples,
+            "exhaustive": false,
+            "nontrivial_runs": nontrivial,
+            "steps_total": stats.steps,
+            "operations": Value::Object(opsj),
+            "faults_fired": Value::Object(faults),
+            "reach_probes": Value::Object(probes),
+            "interleavings": {"measure": "distinct sequences of (task id per applied operation) over runs", "distinct": inter.len()},
+            "seam_counters": seam,
+            "runs_per_hour": if wall > 0.0 { (runs as f64 / wall * 3600.0) as u64 } else { 0 },
+            "seeds_per_hour": if wall > 0.0 { (runs as f64 / wall * 3600.0) as u64 } else { 0 },
+            "simulated_time": "n/a - the code under test reads no clock; progress is counted in scheduler steps",
+            "variants_linked": variants,
+            "components": {
+                "real": ["every crate under /repo compiled from the working tree in each listed build variant", "cipher", "inout", "hybrid-array", "crypto-common", "zeroize"],
+                "vendored_with_seam": ["cpufeatures 0.2.17 (/verif/seam/cpufeatures, see SEAM.diff)"],
+                "stub": ["none natively (CPUID is real, filtered by the mask_aes fault)"]
+            },
+            "h_portable_xor": format!("{:016x}", portable_xor),
+            "notes": notes,
+        },
+        "assumptions": [
+            "keys, blocks and batch lengths are sampled, not enumerated",
+            "interleaving is at operation granularity in this engine (a &self call has no yield point); intra-call preemption is explored by the Miri engine",
+            "oracles are consistency oracles: a deviation common to every realisation, route, placement and history of a family is invisible here"
+        ],
+        "wall_s": wall,
+        "violations": violations.len(),
+    });
+    if let Some(dir) = std::path::Path::new(&evidence).parent() {
+        let _ = std::fs::create_dir_all(dir);
+    }
+    std::fs::write(&evidence, serde_json::to_string_pretty(&ev).unwrap()).unwrap_or_else(|e| die(&format!("write evidence: {}", e)));
+    for (s, w) in &known_hits {
+        println!("KNOWN-FINDING: property={} {} [{}]", prop.name(), w, s);
+    }
+    for n in &notes {
+        println!("{}", n);
+    }
+    println!(
+        "runs={} nontrivial={} distinct_nontrivial={} steps={} cipher_calls={} wall={:.1}s",
+        runs,
+        nontrivial,
+        digests.len(),
+        stats.steps,
+        stats.cipher_calls,
+        wall
+    );
+    if !herr.is_empty() {
+        for e in &herr {
+            eprintln!("HARNESS-ERROR: {}", e);
+        }
+        std::process::exit(2);
+    }
+    if !violations.is_empty() {
+        // confirm each in a fresh process before reporting
+        let mut confirmed = 0;
+        for v in &violations {
+            let path = v["replay"].as_str().unwrap_or("");
+            let st = Command::new(&exe).args(["replay", path, "--known", &known_path]).stdout(Stdio::piped()).status();
+            match st {
+                Ok(s) if s.code() == Some(1) => {
+                    confirmed += 1;
+                    println!("{}", v["violation"]);
+                    println!("VIOLATION property={} replay={}", prop.name(), path);
+                }
+                other => {
+                    eprintln!("HARNESS-ERROR: violation in {} did not reproduce in a fresh process ({:?})", path, other);
+                }
+            }
+        }
+        if confirmed == 0 {
+            std::process::exit(2);
+        }
+        std::process::exit(1);
+    }
+    println!("OK property={} held on {} runs", prop.name(), runs);
+}
+
+fn replay(args: &[String]) {
+    let path = args.get(2).map(|s| s.as_str()).unwrap_or_else(|| die("replay <file>"));
+    let reg = sim::registry::build();
+    let anchors = Anchors::compute(&reg);
+    install_quiet_panic_hook();
+    let s = std::fs::read_to_string(path).unwrap_or_else(|e| die(&format!("read {}: {}", path, e)));
+    let v: Value = serde_json::from_str(&s).unwrap_or_else(|e| die(&format!("parse {}: {}", path, e)));
+    match v.get("engine").and_then(|x| x.as_str()) {
+        Some("native") => {}
+        Some("c14") => return sim::bcrypt::replay(&v),
+        Some("c16") => return sim::residue::replay(&v),
+        e => die(&format!("replay file is for engine {:?}", e)),
+    }
+    let l = load_replay(&reg, &v).unwrap_or_else(|e| die(&e));
+    let known = Known::load(arg(args, "--known").unwrap_or("/verif/known_findings.json"));
+    let r = execute(&reg, &anchors, &l.cfg, &l.ops, l.seed, Some(&l.prop), &known);
+    if let Some(e) = r.harness_error {
+        die(&e);
+    }
+    match r.violation {
+        Some(got) => {
+            let want_class = l.violation.get("class").and_then(|x| x.as_str()).unwrap_or("");
+            let want_step = l.violation.get("step").and_then(|x| x.as_u64()).unwrap_or(u64::MAX);
+            println!("{}", got.to_json());
+            if got.class == want_class && got.step as u64 == want_step {
+                println!("REPRODUCED exactly (class {}, step {})", got.class, got.step);
+            } else {
+                println!("REPRODUCED a violation of {} but not the recorded one (recorded class {} step {})", got.prop, want_class, want_step);
+            }
+            println!("VIOLATION property={} replay={}", l.prop, path);
+            std::process::exit(1);
+        }
+        None => {
+            println!("NOT-REPRODUCED: {} operations applied without a {} violation", l.ops.len(), l.prop);
+        }
+    }
+}
+
+/// Print per-run digests for a seed range (determinism self-test, cross-target comparison).
+fn digest(args: &[String]) {
+    let reg = sim::registry::build();
+    let anchors = Anchors::compute(&reg);
+    install_quiet_panic_hook();
+    let (prop, seed) = common(args);
+    let from: u64 = arg(args, "--from").and_then(|s| s.parse().ok()).unwrap_or(0);
+    let count: u64 = arg(args, "--count").and_then(|s| s.parse().ok()).unwrap_or(100);
+    let known = Known::default();
+    println!("anchors {:016x}", anchors.digest);
+    for i in from..from + count {
+        let r = sim::engine::run_one(&reg, &anchors, prop, sim::prng::run_seed(seed, i), &known);
+        println!(
+            "{} {:016x} {:016x} {:016x} ops={} steps={} viol={}",
+            i,
+            r.h_all,
+            r.h_portable,
+            r.task_order,
+            r.ops.len(),
+            r.stats.steps,
+            r.violation.as_ref().map(|v| v.signature()).unwrap_or_else(|| "-".into())
+        );
+    }
 }
